@@ -192,6 +192,8 @@ type Walker struct {
 	// inlineHelpers: single-caller private helpers are walked inline (used by exit-based rules so that extracting a
 	// helper does not change what a rule sees)
 	inlineHelpers bool
+	// viaValue: the call being applied goes through a function value (callFuncVal)
+	viaValue bool
 	// rec: private site recorder (nil = the analysis-wide table)
 	rec *Analysis
 	// siteOwner: sites recorded while a higher-order helper or a function literal is walked inline belong to the
